@@ -451,9 +451,11 @@ class GroupBuild:
             shapes.turbo_add_enabled = True
             CALLS["additions_with_turbo_add_enabled"] += 1
         if kind == "group":
-            current = list(shapes)
+            current = list(shapes if op.get("take_from") is None else self.container(op["take_from"]))
             g = shapes.add_group_shape([current[i] for i in op["take"]])
             CALLS["add_group_shape"] += 1
+            if op.get("take_from") is not None:
+                CALLS["add_group_shape:members-taken-out-of-another-group"] += 1
             self.groups.append(g)
             self.proxy[g._element] = g
             return (g._element, "group-with-shapes") if op["take"] else (None, "empty-group")
@@ -531,6 +533,16 @@ def gen_op(b, r):
             ok = [i for i, m in enumerate(els) if d + 1 + height(m) <= 4]
             take = sorted(r.sample(ok, min(len(ok), r.choice((0, 1, 2, 3)))))
             return {"op": "group", "into": into, "take": take}
+    elif roll < 0.42:
+        # the members of the new group are taken OUT OF another group: that group (and its ancestors) lost members and must
+        # follow as well ("always equal the bounding box of its member shapes")
+        srcs = [k for k, g in enumerate(b.groups) if sum(1 for m in members(g._element) if m.tag != P + "grpSp") >= 2]
+        if srcs:
+            y = r.choice(srcs)
+            into = r.choice([-1] + [k for k in range(len(b.groups)) if k != y and b.depth(k) < 4])
+            leaves = [i for i, m in enumerate(members(b.groups[y]._element)) if m.tag != P + "grpSp"]
+            take = sorted(r.sample(leaves, r.randint(1, len(leaves) - 1)))
+            return {"op": "group", "into": into, "take_from": y, "take": take}
     kind = r.choice(("autoshape", "textbox", "connector") if gi < 0 else ("autoshape", "autoshape", "textbox", "textbox", "picture", "picture", "connector", "connector", "freeform", "freeform", "chart", "ole"))
     op = {"op": kind, "into": gi, "xywh": [rcoord(r), rcoord(r), rsize(r), rsize(r)]}
     if kind == "connector":
@@ -552,6 +564,8 @@ def group_step(b, op, step, tag):
         CALLS["empty_subgroup_additions_not_checked"] += 1
         return
     n = b.check(el, kind) if (op["into"] >= 0 or kind == "group-with-shapes") else 0
+    if op.get("take_from") is not None:
+        b.check(b.groups[op["take_from"]]._element, "group-members-were-taken-from")
     neg = any(v < 0 for v in op.get("xywh", ()))
     sample = {"build": tag, "step": step, "op": op, "ancestor groups checked": n} if n >= 3 and tag[1:] == [0] and step > 30 else None
     b.acc.case(key=env.khash([tag, step, op]), nontrivial=n >= 2 or bool(n and neg), cls="group-add:%s:depth%d" % (kind, n), sample=sample)
